@@ -39,6 +39,8 @@ def const_value(v):
         return vstr(v)
     if isinstance(v, (list, tuple)):
         return '(VList [%s])' % '; '.join(const_value(x) for x in v)
+    if isinstance(v, dict):
+        return '(VDict [%s])' % '; '.join('(%s, %s)' % (const_value(k), const_value(x)) for k, x in v.items())
     raise Untranslatable('constant of type %s' % type(v).__name__)
 
 
@@ -65,6 +67,14 @@ class Tr:
             if d in self.consts:
                 return '(EConst %s)' % const_value(self.consts[d])
             return '(EVar %s)' % cstring(d)
+        if isinstance(e, ast.Dict) and not e.keys:
+            return '(EConst (VDict []))'
+        if isinstance(e, ast.BinOp) and isinstance(e.op, ast.Mod) and isinstance(e.left, ast.Constant) and isinstance(e.left.value, str):
+            args = e.right.elts if isinstance(e.right, ast.Tuple) else [e.right]
+            t = e.left.value
+            if t.count('%') != t.count('%s') or t.count('%s') != len(args):
+                raise Untranslatable('format string other than %s placeholders')
+            return '(EFormat (list_ascii_of_string %s) [%s])' % (cstring(t), '; '.join(self.expr(a) for a in args))
         if isinstance(e, ast.List):
             return '(EListLit [%s])' % '; '.join(self.expr(x) for x in e.elts)
         if isinstance(e, ast.Compare):
@@ -131,7 +141,11 @@ class Tr:
                     if d in self.consts and isinstance(self.consts[d], dict):
                         return '(EConst %s)' % const_value(list(self.consts[d].keys()))
                 raise Untranslatable('call of %s' % f.id)
+            if dotted(f) in ('np.mod', 'numpy.mod') and len(e.args) == 2 and not e.keywords:
+                return '(EMod %s %s)' % (self.expr(e.args[0]), self.expr(e.args[1]))
             if isinstance(f, ast.Attribute):
+                if f.attr == 'lower' and not e.args:
+                    return '(ELower %s)' % self.expr(f.value)
                 if f.attr == 'isspace' and not e.args:
                     return '(EIsSpace %s)' % self.expr(f.value)
                 if f.attr == 'upper' and not e.args:
@@ -183,6 +197,10 @@ class Tr:
             return 'SRaise'
         if isinstance(s, ast.Return):
             return '(SReturn %s)' % (self.expr(s.value) if s.value is not None else '(EConst VNone)')
+        if isinstance(s, ast.Assign) and len(s.targets) == 1 and isinstance(s.targets[0], ast.Subscript) \
+                and not isinstance(s.targets[0].slice, ast.Slice):
+            t = s.targets[0]
+            return '(SSetItem %s %s %s)' % (self.target(t.value), self.expr(t.slice), self.expr(s.value))
         if isinstance(s, ast.Assign):
             if len(s.targets) != 1:
                 raise Untranslatable('multiple assignment')
@@ -238,6 +256,8 @@ FUNCS = [
     ('g_get_STY_residues', 'localcider/backend/sequence.py', 'Sequence', 'get_STY_residues', []),
     ('g_get_phosphosequence', 'localcider/backend/sequence.py', 'Sequence', 'get_phosphosequence', []),
     ('g_clear_phosphosites', 'localcider/backend/sequence.py', 'Sequence', 'clear_phosphosites', []),
+    ('g_set_palette', 'localcider/backend/sequence.py', 'Sequence', 'set_HTMLColorResiduePalette', ['data.aminoacids.', 'aminoacids.']),
+    ('g_get_html', 'localcider/backend/sequence.py', 'Sequence', 'get_HTMLColorString', []),
     ('g_parseSeqFile', 'localcider/backend/seqfileparser.py', 'SequenceFileParser', 'parseSeqFile', []),
 ]
 
